@@ -41,7 +41,11 @@ pub const INFO: Info = Info {
            four very intense peaks on its b1, b2, y1, y2 ions (not indexed, so no count changes): it is the best full \
            score and must be reported first / must not be reported; two thirds of them with the database thinned so \
            that the count boundary is strict (exactly K candidates with count >= c), the rest with a count tie across \
-           the boundary (decided by peptide index); multi-window-trim: charge absent x isotope range x 6000 Da open \
+           the boundary (decided by peptide index); chimera-fragment-charge: chimera on, report_psms 2-3, precursor charge 2-4 x max_fragment_charge Some(1)/Some(2)/None, \
+           database {P, Q, R} with P = every residue of Q repeated zf times so that Q's b ladder sits on P's b fragments at \
+           charge zf (zf above the allowed fragment charge whenever one exists below the precursor charge), P's full ladder \
+           intense, R with fewer ions than Q: after removing P's MATCHED peaks Q must still be found in round 2; \
+           multi-window-trim: charge absent x isotope range x 6000 Da open \
            search on a large database (all three levels of trimming cut). Spectra are built from the ladders (b/y, sometimes other kinds) of 1-3 \
            database peptides at fragment charge 1-3: each ion kept with probability 0.3-1.0, displaced by {0, +-0.5, \
            +-0.9, +-1.1, +-2} tolerance widths, intensity from {1, 2.5, 10, 100} or uniform in [1,1000), plus 0-40 \
@@ -791,6 +795,101 @@ fn critical_req(rng: &mut Rng, n: usize, report: usize, offset: usize, chimera: 
     Some((req, strict, x))
 }
 
+/// chimeric removal vs. the configured fragment-charge limit: P = every residue of Q repeated `zf` times, so that
+/// b_{zf*i}(P) / zf = b_i(Q): Q's b ladder sits exactly on P's b fragments at charge `zf`. P (complete charge-1 ladder,
+/// intense) wins round 1; when `zf` is ABOVE the allowed fragment charge (`max_fragment_charge` below precursor
+/// charge - 1) those positions were never matched for P and `remove_matched_peaks` must leave them, so that Q
+/// (6-7 b ions) beats R (fewer ions) in round 2. Returns the request and whether the coinciding positions are
+/// unmatched under the configured limit.
+fn chimera_charge_req(rng: &mut Rng, z: u8, mfc: Option<u8>, directed: bool) -> (Req, bool) {
+    // exclusive upper bound of the fragment charges the scorer uses
+    let top_excl: u8 = z.min(mfc.map(|c| c + 1).unwrap_or(z)).max(2);
+    // a fragment charge the scorer does NOT use but that is below the precursor charge, if there is one
+    let zf: u8 = if top_excl < z { top_excl + rng.below((z - top_excl) as usize) as u8 } else { 2 };
+    let unmatched = zf >= top_excl;
+    let pool = b"AGSPVTLNDEMHFYW";
+    let qlen = if directed { 7 } else { 5 + rng.below(3) };
+    let mut qseq: Vec<u8> = Vec::new();
+    while qseq.len() < qlen {
+        let c = *rng.pick(pool);
+        if qseq.last() != Some(&c) {
+            qseq.push(c);
+        }
+    }
+    let mut pseq: Vec<u8> = Vec::new();
+    for &c in &qseq {
+        for _ in 0..zf {
+            pseq.push(c);
+        }
+    }
+    let pp = Pep::plain(&pseq, false);
+    let qp = Pep::plain(&qseq, rng.chance(1, 3));
+    // R: unrelated, with fewer ions in the spectrum than Q
+    let rp = loop {
+        let r = random_pep(rng);
+        if r.seq.len() >= 7 && r.mods.iter().all(|&m| m == 0.0) && r.nterm.is_none() && r.cterm.is_none() {
+            break r;
+        }
+    };
+    let ftol = if directed { Tol::Ppm(-20.0, 20.0) } else { *rng.pick(&[Tol::Ppm(-20.0, 20.0), Tol::Ppm(-10.0, 10.0), Tol::Da(-0.02, 0.02)]) };
+    let ions = |p: &Pep, k: Kind| -> Vec<f32> { IonSeries::new(&p.peptide(), k).map(|i| i.monoisotopic_mass).collect() };
+    let mut peaks: Vec<(f32, f32)> = vec![];
+    // P: complete b and y ladder at charge 1, intense
+    for k in [Kind::B, Kind::Y] {
+        for m in ions(&pp, k) {
+            peaks.push((m, 100.0));
+        }
+    }
+    // Q: its b ladder (= P's b fragments at charge zf), all of it or all but one
+    let qb = ions(&qp, Kind::B);
+    let pb = ions(&pp, Kind::B);
+    let skip = if directed { usize::MAX } else { rng.below(qb.len() + 2) };
+    for (i, &m) in qb.iter().enumerate() {
+        if i == skip {
+            continue;
+        }
+        // place the peak on P's fragment position (fragment mass / zf): inside Q's window as well
+        let on_p = pb[(i + 1) * zf as usize - 1] / zf as f32;
+        peaks.push((if rng.chance(1, 2) { on_p } else { m }, 10.0));
+    }
+    // R: a few of its b / y ions, fewer than Q has
+    let nr = if directed { 4 } else { 2 + rng.below(4) };
+    let mut rions: Vec<f32> = ions(&rp, Kind::B).into_iter().chain(ions(&rp, Kind::Y)).collect();
+    rng.shuffle(&mut rions);
+    for &m in rions.iter().take(nr) {
+        peaks.push((m, if directed { 10.0 } else { *rng.pick(&[5.0f32, 10.0, 20.0]) }));
+    }
+    if !directed {
+        for _ in 0..*rng.pick(&[0usize, 0, 5, 15]) {
+            peaks.push(((rng.unit() * pp.mono as f64) as f32 + 60.0, 1.0 + (rng.unit() * 4.0) as f32));
+        }
+    }
+    finish_peaks(&mut peaks);
+    let mut peps = vec![pp.clone(), qp, rp];
+    peps.sort_by(|a, b| a.mono.total_cmp(&b.mono));
+    let req = Req {
+        kinds: vec![1, 4],
+        min_ion_index: if directed { 0 } else { rng.below(2) },
+        bucket: *rng.pick(&[3usize, 8192]),
+        prec_mz: pp.mono / z as f32 + PROTON,
+        peps,
+        ftol,
+        ptol: Tol::Da(-6000.0, 6000.0),
+        mfc,
+        iso: (0, 0),
+        zr: (2, 4),
+        override_charge: false,
+        chimera: true,
+        wide: false,
+        report: if directed { 3 } else { 2 + rng.below(2) },
+        min_matched: if directed { 3 } else { *rng.pick(&[2u16, 3, 4]) },
+        charge: Some(z),
+        isowin: None,
+        peaks,
+    };
+    (req, unmatched)
+}
+
 /// one peptide, one b and one y peak of intensity 0.01: hyperscore < 0 (the known delta_next defect)
 fn negative_req(rng: &mut Rng) -> Req {
     let p = loop {
@@ -984,6 +1083,19 @@ pub fn gen(rng: &mut Rng, tier: Tier, emit: &mut dyn FnMut(Case)) {
         tags.push("directed");
         tags.push("multi-window-trim");
         emit_req(emit, &r, &tags);
+    }
+    // ---- chimeric removal honours max_fragment_charge: peaks on the previous PSM's unmatched higher-charge positions ----
+    for z in 2..=4u8 {
+        for mfc in [Some(1u8), Some(2), None] {
+            let (r, unmatched) = chimera_charge_req(rng, z, mfc, true);
+            emit_req(emit, &r, &["directed", "chimera-fragment-charge", if unmatched { "coincides-with-unmatched-position" } else { "coincides-with-matched-position" }]);
+        }
+    }
+    for _ in 0..(if quick { 45 } else { 1500 }) {
+        let z = 2 + rng.below(3) as u8;
+        let mfc = *rng.pick(&[Some(1u8), Some(1), Some(2), None]);
+        let (r, unmatched) = chimera_charge_req(rng, z, mfc, false);
+        emit_req(emit, &r, &["random", "chimera-fragment-charge", if unmatched { "coincides-with-unmatched-position" } else { "coincides-with-matched-position" }]);
     }
     // ---- known defect stream ----
     {
